@@ -23,7 +23,7 @@ targets without leading slash, junk and extreme numeric fields, non-UTF-8 and co
 x application in {App, handler returning Err, handler returning a fixed response}, in-process on Server::process over a fixed small docroot. \
 Oracle: no panic/abort (worker supervisor attributes an abort to the in-flight case); exactly one response accepted by M-HTTP with Content-Length == body length (empty body for HEAD/OPTIONS); \
 status >= 400 when the harness's pre-parser says the request line must be rejected or the handler returned Err. \
-Non-trivial = carries a mutation or hostile field and is not rejected by the first-line check alone; distinct by generated case. Saved corpus files (corpus/c04) are replayed first.",
+A quarter of the production-entry cases with the default buffer and the real application are sent to the release binary over loopback instead of Server::process on the mock transport (same oracle; a server-side panic shows as a connection closed without response bytes). Non-trivial = carries a mutation or hostile field and is not rejected by the first-line check alone; distinct by generated case. Saved corpus files (corpus/c04) are replayed first.",
         &["the harness's lenient request-line pre-parser decides only the classes the statement names; lower case, extra blanks, tabs assert totality only",
           "in-process route: process survival is observed as absence of panic/abort of the worker process; the real-binary tier is part of C06"],
         if tier == Tier::Quick { 900 } else { 14400 },
@@ -61,6 +61,7 @@ pub fn eval(ctx: &Ctx, c: &ServerCase) -> Verdict {
     }
     match &e.line { LineClass::Valid { .. } => classes.push("line-valid"), LineClass::MustReject(_) => classes.push("line-must-reject"), LineClass::Unspecified { .. } => classes.push("line-unspecified") }
     if e.bytes.len() > e.bufsize { classes.push("oversized"); }
+    if super::common::via_binary(c) { classes.push("sent-to-the-real-binary"); }
     if c.app != AppKind::Real { classes.push("custom-application"); }
     if e.bytes.iter().filter(|b| **b == b'\n').count() > 200 { classes.push("more-than-200-lines"); }
     let nontrivial = hostile(c) && !matches!(e.line, LineClass::MustReject(_));
@@ -99,7 +100,9 @@ pub fn run(ctx: &Ctx) {
         let app = match (sel >> 2) & 3 { 1 => AppKind::ReturnsErr, 2 => AppKind::Fixed, _ => AppKind::Real };
         judge_bytes(ctx, &data[1..], bufsize, app)
     });
+    super::common::binary_begin(ctx, &_tree.root);
     ctx.prop("generated", ctx.share(ctx.scale(40_000, 3_000_000)), server_case_strategy(false), |c| eval(ctx, c));
+    super::common::binary_end(ctx);
     std::env::set_current_dir("/").ok();
 }
 
@@ -140,6 +143,7 @@ pub fn replay_corpus_with(ctx: &Ctx, name: &str, f: impl Fn(&Ctx, &[u8]) -> (Ver
 pub fn replay(ctx: &Ctx, section: &str, case: &Value) -> Verdict {
     crate::fw::inproc::init_env();
     let _tree = match fixed_docroot() { Ok(t) => t, Err(e) => return Verdict::fail("replay-docroot-failed", e.to_string()) };
+    if super::common::replay_wants_binary(case) { super::common::binary_begin(ctx, &_tree.root); }
     if let Some(b) = case.get("bytes").and_then(|b| b.as_str()) {
         let data = crate::fw::util::unescape_bytes(b);
         if data.is_empty() { return Verdict::pass(false); }
